@@ -669,6 +669,13 @@ def run(ck):
     # semantic oracle: the implementation's statement, evaluated over generated attribute-index contents, against the meaning of the script
     judged = [c for c in usable if c.get("dbs")]
     bad = [(i, cd) for i, cd in sem if cd in (1, 2)]
+    # the recorded finding: more than 100 matched spans of one trace (groupArray(100)); only the corpus witness of that class
+    known = ck.known_findings()
+    if "span-list-cut-at-100" in known:
+        cut = [(i, cd) for i, cd in bad if cd == 2 and byid[i]["class"] == "corpus:span-cut"]
+        if cut:
+            ck.report_known("span-list-cut-at-100", "%r over a trace with 101 matching spans: returned with 100 of them" % qtext(byid[cut[0][0]]))
+            bad = [x for x in bad if x not in cut]
     ck.obligation("semantic oracle: on %d searches x %d generated databases the statement selects the traces and spans the script describes" % (
         len(judged), ck.n(2, 4)), not bad, "ids %s e.g. %r" % (bad[:8], qtext(byid[bad[0][0]]) if bad else ""))
     if bad:
